@@ -109,6 +109,35 @@ static std::string casestr(int op, int form, u64 a, u64 b)
     return fmt("w=%u op=%s form=%d a=%s b=%s", W, opname[op], form, hex(a).c_str(), hex(b).c_str());
 }
 
+#if !defined(VW) && !defined(C01_AS_LIB)
+// ---- calls made during static initialisation.  The constructor of this namespace-scope object runs before main() and -- the
+// harness is first on the link line -- before the dynamic initialisers of the library's own translation unit: the state a
+// client's global constructor finds.  Every operation is evaluated there on all ordered pairs of the small boundary alphabet;
+// main() compares the stored results with the reference (the result of an operation depends on its operands only, not on WHEN it
+// is called).
+struct EarlyEval
+{
+    std::vector<u64> A;
+    std::vector<u64> res; // [op][i][j]
+    EarlyEval()
+    {
+        A = small_alphabet();
+        A.push_back(PR - 2);
+        A.push_back(0x7FFFFFFF80000000ULL);
+        for (int op = 0; op < NOPS; op++)
+            for (u64 a : A)
+                for (u64 b : A) res.push_back(run(op, 0, a, is_binary(op) ? b : 0));
+    }
+    bool lookup(int op, u64 a, u64 b, u64 &r) const
+    {
+        for (size_t i = 0; i < A.size(); i++)
+            for (size_t j = 0; j < A.size(); j++)
+                if (A[i] == a && (A[j] == b || !is_binary(op))) { r = res[((size_t)op * A.size() + i) * A.size() + j]; return true; }
+        return false;
+    }
+};
+static EarlyEval g_early;
+#endif
 struct SigTab
 {
     std::mutex mu;
@@ -169,12 +198,16 @@ static int run_one(const std::string &cs_)
     u64 a = cu(m, "a"), b = cu(m, "b");
     u64 ex = expect(op, a, b);
     u64 r = run(op, form, a, b);
+    std::string when = cs(m, "when", "");
+#if !defined(VW) && !defined(C01_AS_LIB)
+    if (when == "static-init" && !g_early.lookup(op, a, b, r)) { printf("INFO replay: pair not in the static-initialisation set\n"); return 0; }
+#endif
     E e;
     e.fe = r;
     u64 canon = Goldilocks::toU64(e);
     rep().stat("evaluations");
     if (canon != ex || r % PR != ex || r > LANEMASK)
-        rep().viol(fmt("C01.wrong.%s.w%u", opname[op], W), casestr(op, form, a, b),
+        rep().viol(fmt("C01.wrong.%s%s.w%u", opname[op], when == "static-init" ? ".static-init" : "", W), casestr(op, form, a, b) + (when.empty() ? "" : " when=" + when),
                    fmt("got %s (toU64 %s) expected %s", hex(r).c_str(), hex(canon).c_str(), hex(ex).c_str()));
     rep().flush();
     return 0;
@@ -316,6 +349,30 @@ int main(int argc, char **argv)
         cur = nxt;
         if (cur.empty()) break;
     }
+#ifndef C01_AS_LIB
+    // results computed during static initialisation (EarlyEval)
+    {
+        long long n = 0;
+        for (int op = 0; op < NOPS; op++)
+            for (u64 a : g_early.A)
+                for (u64 b : g_early.A)
+                {
+                    u64 r = 0;
+                    g_early.lookup(op, a, b, r);
+                    u64 bb = is_binary(op) ? b : 0, ex = expect(op, a, bb);
+                    n++;
+                    if (r % PR != ex)
+                    {
+                        rep().viol(fmt("C01.wrong.%s.static-init.w%u", opname[op], W), casestr(op, 0, a, bb) + " when=static-init",
+                                   fmt("called from the constructor of a namespace-scope object (before main): got %s expected %s; the same call from main() gives %s", hex(r).c_str(), hex(ex).c_str(), hex(run(op, 0, a, bb)).c_str()));
+                        break;
+                    }
+                }
+        total_evals += n;
+        total_cases += n;
+        rep().stat("static_init_evaluations", n);
+    }
+#endif
     // products landing in the non-canonical band [p, 2^64)
     long long gevals = 0;
     for (auto &g : gens)
